@@ -111,6 +111,7 @@ type Faults struct {
 	ReadTimeout  bool // deadline expiry is always offered once due; this offers it early (not used)
 	Cut          bool // broker side cuts the connection, pending bytes stay readable
 	CutDrop      bool // … pending bytes are lost
+	CutHalf      bool // the broker closes its side: reads hit EOF, writes still succeed locally and go nowhere
 	DialErr      bool
 	DialBlock    bool
 	Connacks     [][]byte // alternative replies to CONNECT (connection closed after)
@@ -133,25 +134,26 @@ type Scenario struct {
 	Gens     [][]ActorSpec // actors of the generations after a crash
 	Inbound  []InMsg
 	// InjectOK limits when the broker may send the next scripted message
-	InjectOK  func(w *World) bool
-	SubFail   func(filter string) bool
-	Faults    Faults
-	Done      func(w *World) bool
-	Final     func(w *World)
-	Horizon   int
-	IdleTicks int
-	ReadBuf   int
-	PipeClose bool
-	PresetSeq [2]uint
-	Preset    bool
-	Init      func(w *World) // after client construction, before the first step
-	MaxConns  int
-	Burst     bool // the broker sends the whole inbound script right after CONNACK
-	Mute      func(p *Packet) bool // the broker consumes these packets without reacting
-	Hostile   [][]byte             // byte strings the broker may send once (one per execution)
-	HostileOK func(w *World) bool
-	Key       func(w *World) string // extra state for the pruning key
-	StepCheck func(w *World)        // invariant evaluated at every quiescent state
+	InjectOK      func(w *World) bool
+	SubFail       func(filter string) bool
+	Faults        Faults
+	Done          func(w *World) bool
+	Final         func(w *World)
+	Horizon       int
+	IdleTicks     int
+	ReadBuf       int
+	PipeClose     bool
+	PresetSeq     [2]uint
+	Preset        bool
+	Init          func(w *World) // after client construction, before the first step
+	MaxConns      int
+	LazyExchanges bool                 // the application does not read its exchange channels before the end
+	Burst         bool                 // the broker sends the whole inbound script right after CONNACK
+	Mute          func(p *Packet) bool // the broker consumes these packets without reacting
+	Hostile       [][]byte             // byte strings the broker may send once (one per execution)
+	HostileOK     func(w *World) bool
+	Key           func(w *World) string // extra state for the pruning key
+	StepCheck     func(w *World)        // invariant evaluated at every quiescent state
 }
 
 type point struct {
@@ -182,17 +184,17 @@ type World struct {
 	points  []point
 	spent   Cost
 
-	horizonHit bool
-	pruned     bool
-	quiet      bool
-	toolErr    string
-	panics     []string
-	trace      bool
-	traceOut   []string
-	keys       map[uint64]struct{}
-	nDial      int
-	crashSnaps []crashSnap
-	deliveries []*Delivery
+	horizonHit  bool
+	pruned      bool
+	quiet       bool
+	toolErr     string
+	panics      []string
+	trace       bool
+	traceOut    []string
+	keys        map[uint64]struct{}
+	nDial       int
+	crashSnaps  []crashSnap
+	deliveries  []*Delivery
 	damaged     []damage
 	fsStore     mqtt.Persistence
 	vfs         *vfs
@@ -240,7 +242,7 @@ func (w *World) liveConn() *simConn {
 		return nil
 	}
 	c := w.conns[len(w.conns)-1]
-	if c.closed || c.dead {
+	if c.closed || c.dead || c.halfDead {
 		return nil
 	}
 	return c
@@ -332,7 +334,7 @@ func (w *World) threadAlts(th *thread) (alts []alt, hasDefault bool) {
 			}
 			return alts, true
 		}
-		if c.dead {
+		if c.dead || c.halfDead {
 			answer("EOF", Cost{}, 0, io.EOF, nil)
 			return alts, true
 		}
@@ -376,6 +378,10 @@ func (w *World) threadAlts(th *thread) (alts []alt, hasDefault bool) {
 		due := !c.wdl.IsZero() && !now.Before(c.wdl)
 		if due {
 			answer("timeout", Cost{}, 0, simTimeout{}, respMode{}, false, false)
+			return alts, true
+		}
+		if c.halfDead {
+			answer("ok(half-closed)", Cost{}, len(p), nil, respMode{}, true, false)
 			return alts, true
 		}
 		answer("ok", Cost{}, len(p), nil, respMode{}, false, false)
@@ -626,6 +632,12 @@ func (w *World) menu() []alt {
 				c.dead = true
 			}})
 		}
+		if f.CutHalf && !c.halfDead && w.allow("cuthalf") {
+			menu = append(menu, alt{label: fmt.Sprintf("cut-half c%d", c.id), cost: Cost{F: 1}, do: func() {
+				w.ev(Event{K: "cut", C: c.id, S: "half"})
+				c.halfDead = true
+			}})
+		}
 		if f.CutDrop && len(c.in) > 0 && w.allow("cutdrop") {
 			menu = append(menu, alt{label: fmt.Sprintf("cut+drop c%d", c.id), cost: Cost{F: 1}, do: func() {
 				w.ev(Event{K: "cut", C: c.id, S: "drop"})
@@ -727,6 +739,9 @@ func (w *World) stateKey() uint64 {
 		}
 		if c.stallNext {
 			h = mix(h, "s")
+		}
+		if c.halfDead {
+			h = mix(h, "h")
 		}
 		if !c.rdl.IsZero() {
 			if now.Before(c.rdl) {
@@ -973,7 +988,9 @@ func runExec(t *testing.T, scn *Scenario, prefix []int, pr pruner, trace bool) (
 		for {
 			synctest.Wait()
 			w.collectObservations()
-			w.pollExchanges()
+			if !scn.LazyExchanges {
+				w.pollExchanges()
+			}
 			if w.client == nil {
 				break
 			}
@@ -1047,6 +1064,9 @@ func runExec(t *testing.T, scn *Scenario, prefix []int, pr pruner, trace bool) (
 		if !w.pruned && w.toolErr == "" {
 			if len(w.panics) > 0 {
 				w.Violate("C12", "panic", "library goroutine panicked: %v", w.panics)
+			}
+			if scn.LazyExchanges {
+				w.pollExchanges()
 			}
 			if scn.Final != nil && w.client != nil {
 				scn.Final(w)
